@@ -378,6 +378,20 @@ def run_obligation(ob, seed=0):
             rec['validated'] += 1
             ok = True
             why = None
+            extra_labs = getattr(ob, 'replay_only_labels', ())
+            beyond = dict((k, v) for k, v in (r.get('violations') or
+                                              {}).items()
+                          if any(fnmatch.fnmatch(k, g) for g in extra_labs))
+            if beyond:
+                # the concrete oracle checks more than the symbolic claims
+                # (declared per obligation): a failure of such a clause on
+                # the real code is a violation in its own right
+                lab, detail = list(beyond.items())[0]
+                rec['confirmed'].append(_jsonable({
+                    'label': lab, 'inputs': inputs, 'observed': detail,
+                    'real_label': lab, 'kind': 'replay-oracle',
+                    'why': 'clause checked by the replay oracle only'}))
+                return
             if r.get('violations'):
                 ok = False
                 why = 'concrete oracle reports %r where every claim on ' \
@@ -402,8 +416,20 @@ def run_obligation(ob, seed=0):
             query_timeout_ms=ob.timeout_ms, seed=seed, on_path=on_path,
             wall_budget_s=getattr(ob, 'wall_budget_s', None))
         rec['exhausted'] = exhausted
-    except Exception:
-        rec['errors'].append(traceback.format_exc(limit=8))
+    except Exception as ex:
+        from . import loader as _loader
+        if isinstance(ex, _loader.HarnessError) or getattr(
+                ob, 'encoding_fragile', False):
+            # the source no longer has the shape this encoding understands
+            # (AST pattern not found, a construct the stub environment does
+            # not model): not an alarm and not a pass -- the obligation is
+            # inconclusive; the concrete oracle is still run on the
+            # obligation's nominated inputs and a failure there is real
+            rec['not_encodable'] = '%s: %s' % (type(ex).__name__,
+                                               str(ex)[:300])
+            _fallback(ob, rec)
+        else:
+            rec['errors'].append(traceback.format_exc(limit=8))
         rec['exhausted'] = False
     rec['distinct_paths'] = len(path_sigs)
     rec['wall_s'] = round(time.time() - t0, 3)
@@ -418,6 +444,28 @@ def run_obligation(ob, seed=0):
             'line': 0, 'calls': rec['paths'], 'sha256': info['sha256'],
             'statements': info['statements']})
     return rec
+
+
+def _fallback(ob, rec):
+    fi = getattr(ob, 'fallback_inputs', None)
+    cases = fi() if fi else [{}]
+    rec['fallback_replays'] = 0
+    for inputs in cases:
+        try:
+            r = ob.real(inputs)
+        except Exception:
+            rec['errors'].append('real() failed on %r: %s' % (
+                inputs, traceback.format_exc(limit=3)))
+            return
+        rec['fallback_replays'] += 1
+        if r.get('violations'):
+            lab, detail = list(r['violations'].items())[0]
+            rec['confirmed'].append(_jsonable({
+                'label': lab, 'inputs': inputs, 'observed': detail,
+                'real_label': lab, 'kind': 'fallback-replay',
+                'why': 'encoding not applicable (%s); the concrete oracle '
+                       'fails on the real code' % rec['not_encodable']}))
+            return
 
 
 def _replay_claim(ob, c, rec):
@@ -611,7 +659,8 @@ def finish(mod, prop, tier, seed, recs, extra, wall):
             mismatches.append((r['name'], m))
         for e in r.get('errors', []):
             errors.append((r['name'], e))
-        if r.get('feasible_paths', 0) == 0 and not r.get('errors'):
+        if r.get('feasible_paths', 0) == 0 and not r.get('errors') and \
+                not r.get('not_encodable'):
             errors.append((r['name'], 'vacuous: no feasible path reached '
                            'the end of the harness'))
     for r in extra.get('violations', []):
@@ -624,6 +673,11 @@ def finish(mod, prop, tier, seed, recs, extra, wall):
     inconclusive = [r['name'] for r in recs if r.get('truncated') or
                     r.get('unknown_claims') or r.get('unknown_paths') or
                     not r.get('exhausted', True)]
+    for r in recs:
+        if r.get('not_encodable'):
+            print('NOT-ENCODABLE obligation=%s %s (concrete oracle run on %d '
+                  'nominated inputs)' % (r['name'], r['not_encodable'],
+                                         r.get('fallback_replays', 0)))
     funcs = {}
     for r in recs:
         for f in r.pop('functions_encoded', []) or []:
